@@ -101,6 +101,8 @@ type SerialCase struct {
 	Rendered []string `json:"rendered,omitempty"`
 	Long     []int    `json:"long,omitempty"` // C05: extra triples with a text literal padded so that the printed line has exactly this length
 	Big      int      `json:"big,omitempty"`  // C05: this many extra small triples (graphs larger than any page / buffer size)
+	SrcFail  *FaultSpec `json:"srcfail,omitempty"` // C05: the graph being exported fails its listing (before the first / after j triples)
+	DstFail  int        `json:"dstfail,omitempty"` // C05: the graph being loaded refuses its k-th AddTriples call (0: never)
 }
 
 var longTargets = []int{4095, 4096, 4097, 8191, 8192, 8193, 12288, 16384, 20480, 65535, 65536, 65537, 70000, 131072}
@@ -163,11 +165,15 @@ func (h *serialHarness) Gen(r *Rand, tier string, clean bool) any {
 		}
 	}
 	if h.prop == "C05" {
-		switch r.Intn(8) {
+		switch r.Intn(10) {
 		case 0:
 			c.WFail = r.Intn(200)
 		case 1:
 			c.RFail = r.Intn(200)
+		case 2:
+			c.SrcFail = &FaultSpec{Mode: []string{"before", "after"}[r.Intn(2)], J: r.Range(1, 4)}
+		case 3:
+			c.DstFail = 1 + r.Intn(5)
 		}
 		if r.Chance(0.06) {
 			// lines whose length sits on / next to the block sizes of buffered readers
@@ -280,7 +286,14 @@ func (h *serialHarness) Run(t *testing.T, ci any) *Outcome {
 	src := graphOf(ctx, ts)
 	want := listing(ctx, src)
 	w := &simWriter{failAt: c.WFail}
-	n, err, res, bubble := writeGraphSim(t, src, w, c.Seed)
+	exportFrom := src
+	var srcStub *simStore
+	if c.SrcFail != nil {
+		// the graph is served by a driver that fails its listing: call 0 of the stub is the Triples call of WriteGraph
+		srcStub = newSimStore(nil, simStoreCfg{Faults: []FaultSpec{{Call: 0, Mode: c.SrcFail.Mode, J: c.SrcFail.J}}})
+		exportFrom = &simGraph{s: srcStub, g: src, id: "?g"}
+	}
+	n, err, res, bubble := writeGraphSim(t, exportFrom, w, c.Seed)
 	if res == nil {
 		return infra("no result: %s", bubble)
 	}
@@ -296,6 +309,15 @@ func (h *serialHarness) Run(t *testing.T, ci any) *Outcome {
 		return mk("writegraph-hang", "WriteGraph did not return: %s", joinLines(res.Stuck, 6))
 	case res.Leaked > 0 || bubble != "":
 		return mk("writegraph-goroutine-left", "%s %s", res.LeakDump, bubble)
+	}
+	if srcStub != nil && srcStub.failed > 0 {
+		o.stat("fault_export_driver_error", 1)
+		if err == nil {
+			return mk("driver-error-swallowed:export", "the graph's listing failed (%v) but WriteGraph reported success (%d triples)", srcStub.fired, n)
+		}
+		o.NonTrivial = true
+		o.Hash = hashStr("sf" + fmt.Sprint(c.Ts, *c.SrcFail))
+		return o
 	}
 	if w.fired {
 		o.stat("fault_write_error", 1)
@@ -315,7 +337,30 @@ func (h *serialHarness) Run(t *testing.T, ci any) *Outcome {
 	// read back through the adversarial reader
 	rd := &simReader{data: w.buf, r: NewRand(c.Seed, 5), maxStep: c.MaxStep, eofWith: c.EOFWith, zeros: c.Zeros, failAt: c.RFail}
 	dst := graphOf(ctx, nil)
-	m, rerr := bwio.ReadIntoGraph(ctx, dst, rd, literal.DefaultBuilder())
+	loadInto := dst
+	var dstStub *simStore
+	if c.DstFail > 0 {
+		dstStub = newSimStore(nil, simStoreCfg{Faults: []FaultSpec{{Call: c.DstFail - 1, Mode: "fail"}}})
+		loadInto = &simGraph{s: dstStub, g: dst, id: "?g"}
+	}
+	m, rerr := bwio.ReadIntoGraph(ctx, loadInto, rd, literal.DefaultBuilder())
+	if dstStub != nil && dstStub.failed > 0 {
+		o.stat("fault_import_driver_error", 1)
+		if rerr == nil {
+			return mk("driver-error-swallowed:import", "the graph refused a write (%v) but ReadIntoGraph reported success (%d triples)", dstStub.fired, m)
+		}
+		// what was reported as loaded is what the graph holds, and it is part of the exported set
+		got := listing(ctx, dst)
+		if m != len(got) {
+			return mk("readintograph-count-after-driver-error", "ReadIntoGraph reports %d triples, the graph holds %d", m, len(got))
+		}
+		if extra, _ := multisetDiff(got, want); len(extra) > 0 {
+			return mk("roundtrip-set-differs", "after a refused write the graph holds triples that were never exported: %q", extra)
+		}
+		o.NonTrivial = true
+		o.Hash = hashStr("df" + fmt.Sprint(c.Ts, c.DstFail))
+		return o
+	}
 	if rd.fired {
 		o.stat("fault_read_error", 1)
 		if rerr == nil {
